@@ -188,14 +188,31 @@ def eval_case(kind, data):
         if ed.get("static_weight", 0) == 0:
             nonstatic.setdefault((min(a, b), max(a, b)), set()).add(ed.get("bond_type"))
 
-    def run(rng):
+    def run(rng, shared=False):
         def go():
-            ag = AtomGraph(sag, rng=rng)
+            # a fresh stochastic graph for every execution: an execution has no history.  shared=True builds the AtomGraph
+            # on the ONE stochastic graph of this case (the way the documentation uses it), after all earlier ones.
+            g_ = sag if shared else gbigsmiles.Molecule(text).gen_stochastic_atom_graph(expect_schulz_zimm_distribution=True)
+            ag = AtomGraph(g_, rng=rng)
             ag.generate()
             return ag
 
         st, out = run_limited(go, (), 20)
         return st, out
+
+    def graph_smiles(g_):
+        """the molecule the generated atom graph denotes, built here from its nodes and edges"""
+        rw = Chem.RWMol()
+        idx = {}
+        for v, d in g_.nodes(data=True):
+            idx[v] = rw.AddAtom(Chem.Atom(int(d["atomic_num"])))
+        for a, b, d in g_.edges(data=True):
+            rw.AddBond(idx[a], idx[b], Chem.BondType(int(d["bond_type"])))
+        m_ = rw.GetMol()
+        Chem.SanitizeMol(m_)
+        return Chem.MolToSmiles(m_)
+
+    done = []
 
     n = 0
     outcomes = set()
@@ -223,6 +240,13 @@ def eval_case(kind, data):
             viol(res, f"C18|not-sanitisable|{name}", f"{text}: to_mol raises {type(e).__name__}: {str(e)[:80]}", {"text": text, "script": script})
             continue
         outcomes.add(smi)
+        if len(done) < 250:
+            done.append((list(script), smi))
+        try:
+            if graph_smiles(g) != smi:
+                viol(res, f"C18|to_mol-is-not-the-generated-graph|{name}", f"{text}: to_mol() gives {smi}, the generated atom graph denotes {graph_smiles(g)}", {"text": text, "script": script})
+        except Exception:  # noqa
+            pass
         if "." in smi:
             viol(res, f"C18|disconnected|{name}", f"{text}: generated {smi}", {"text": text, "script": script})
         # residues: the atoms must PARTITION into whole copies of the tokens (existential: a tiling is searched)
@@ -286,6 +310,20 @@ def eval_case(kind, data):
             st2, out2 = run(r2)
             if st2 != "ok" or Chem.MolToSmiles(out2.to_mol()) != smi:
                 viol(res, f"C18|not-deterministic|{name}", f"{text}: replaying the same answers gives a different molecule", {"text": text, "script": script})
+    # every execution again, now on ONE shared stochastic graph (AtomGraph objects built one after the other on it): same
+    # answers, same molecule - nothing may be carried from one AtomGraph to the next through the graph they share
+    for sc, smi0 in done:
+        r2 = ScriptedGenerator(sc, menu=(0.2, 0.8))
+        st2, out2 = run(r2, shared=True)
+        n += 1
+        res["transitions"] += len(sc)
+        try:
+            same = st2 == "ok" and len(r2.points) == len(sc) and Chem.MolToSmiles(out2.to_mol()) == smi0
+        except Exception:  # noqa
+            same = False
+        if not same:
+            viol(res, f"C18|depends-on-earlier-generation-on-the-same-stochastic-graph|{name}", f"{text}: the answers {sc} give {smi0} on a fresh stochastic graph; on a stochastic graph that earlier AtomGraph objects were built on, the same answers {'are not all asked for (' + str(len(r2.points)) + ' requests)' if st2 == 'ok' and len(r2.points) != len(sc) else 'give another result'}", {"text": text, "script": sc})
+            break
     # the same AtomGraph object generating a second time must again hold one molecule (object reuse)
     import networkx as nx
 
@@ -293,6 +331,10 @@ def eval_case(kind, data):
         def twice():
             ag = AtomGraph(sag, rng=ScriptedGenerator(sc, menu=(0.2, 0.8)))
             ag.generate()
+            try:
+                ag.to_mol()  # looking at the first molecule must not influence what is reported for the second
+            except Exception:  # noqa
+                pass
             ag.rng = ScriptedGenerator(list(reversed(sc)), menu=(0.2, 0.8))
             ag.generate()
             return ag
@@ -303,6 +345,8 @@ def eval_case(kind, data):
         if st == "ok":
             try:
                 smi2 = Chem.MolToSmiles(out.to_mol())
+                if graph_smiles(out.graph) != smi2:
+                    viol(res, f"C18|to_mol-is-not-the-generated-graph|second-generate|{name}", f"{text}: after generate(), to_mol(), generate() on one AtomGraph object to_mol() gives {smi2}, the current atom graph denotes {graph_smiles(out.graph)}", {"text": text, "script": sc})
                 if "." in smi2 or not nx.is_connected(out.graph):
                     viol(res, f"C18|second-generate-not-one-molecule|{name}", f"{text}: after a second generate() on the same AtomGraph object the result is {smi2}", {"text": text, "script": sc})
             except Exception as e:  # noqa
